@@ -76,6 +76,7 @@ def run(ctx: Context) -> None:
     # objects that travel by pickle come back bit-for-bit only through the default protocol: __getstate__ / __setstate__ / __reduce__ hooks on the way (C05-R2c)
     from . import c05
     ctx.rule(c05.r2c_pickle_hooks)
+    ctx.rule(c05.r2g_constructor_keeps_components)
 
 
 def _self_path(e: ast.expr, self_name: str | None) -> str | None:
